@@ -507,8 +507,8 @@ func init() {
 		Required: []string{"calls", "js.parse.accepted", "js.parse.rejected", "ast.exercised", "deep.cases", "hook.newerror", "probes"},
 		Streams: []fw.Stream{
 			{Name: "probes", Quick: len(c01Probes), Thorough: len(c01Probes), Run: c01Probe},
-			{Name: "stream", Quick: 400000, Thorough: 12000000, Run: c01Stream},
-			{Name: "jsparse", Quick: 200000, Thorough: 6000000, Run: c01JSParse},
+			{Name: "stream", Quick: 400000, Thorough: 72000000, Run: c01Stream},
+			{Name: "jsparse", Quick: 200000, Thorough: 36000000, Run: c01JSParse},
 			{Name: "deep", Quick: nDeep, Thorough: nDeep * 4, Run: c01Deep},
 		},
 	})
